@@ -275,7 +275,10 @@ func (g *GoBackNConn) start() {
 
 	g.resendTicker = time.NewTicker(g.timeoutManager.GetResendTimeout())
 
-	g.wg.Add(1)
+	// Both loops are added to the wait group before either of them is
+	// started: a loop that ends at once closes the connection, and Close
+	// waits on the wait group.
+	g.wg.Add(2)
 	go func() {
 		defer func() {
 			g.wg.Done()
@@ -293,7 +296,6 @@ func (g *GoBackNConn) start() {
 		g.log.Debugf("receivePacketsForever stopped")
 	}()
 
-	g.wg.Add(1)
 	go func() {
 		defer func() {
 			g.wg.Done()
